@@ -113,10 +113,19 @@ def _retain_and_check(fn, a):
         RETAINED.append((result, result.copy(), 'transform.%s.%s' % (_family(a[0]), fn.__name__.replace('post_', ''))))
 
 
+# workloads with hundreds of thousands of basis-function evaluations per library call (thousands of snapshots) let the
+# per-evaluation monitors look at every STRIDE-th evaluation only
+STRIDE = [1, 0]
+
+
 def _guarded(fn):
     def wrapper(*a, **kw):
         if probe.S.busy or not probe.S.armed:
             return True
+        if STRIDE[0] > 1:
+            STRIDE[1] += 1
+            if STRIDE[1] % STRIDE[0]:
+                return True
         probe.S.busy += 1
         try:
             try:
